@@ -77,19 +77,23 @@ class Check:
             ev["coverage"]["known_findings_hit"] = self.known_hits
         if self.inconclusive:
             ev["coverage"]["inconclusive"] = self.inconclusive[:20]
-        os.makedirs(os.path.join(VERIF, "evidence"), exist_ok=True)
-        tmp = os.path.join(VERIF, "evidence", ".%s.%d.tmp" % (self.pid, os.getpid()))
+        evdir = os.path.join(VERIF, "evidence")
+        if R.REPO != "/repo":
+            # self-test runs against a scratch copy never touch the committed evidence
+            evdir = os.path.join(VERIF, "build", "selftest-evidence")
+        os.makedirs(evdir, exist_ok=True)
+        tmp = os.path.join(evdir, ".%s.%d.tmp" % (self.pid, os.getpid()))
         with open(tmp, "w") as f:
             json.dump(ev, f, indent=1, default=_default, sort_keys=True)
             f.write("\n")
-        os.replace(tmp, os.path.join(VERIF, "evidence", self.pid + ".json"))
+        os.replace(tmp, os.path.join(evdir, self.pid + ".json"))
         for f in self.findings:
             if f["id"] in self.known_hits:
                 print("KNOWN-FINDING: property=%s %s (%s; seen %d times in this run)" % (
                     self.pid, f["what"], f["id"], self.known_hits[f["id"]]))
         rc = 0
         if self.violations:
-            rdir = os.path.join(VERIF, "replays", self.pid)
+            rdir = os.path.join(VERIF, "replays" if R.REPO == "/repo" else "build/selftest-replays", self.pid)
             os.makedirs(rdir, exist_ok=True)
             for i, (sig, detail) in enumerate(sorted(self.violations.items())):
                 path = os.path.join(rdir, "%s-%s-seed%d-%d.json" % (self.pid, self.tier, self.seed, i))
